@@ -36,6 +36,17 @@ CLAIMED = {
          "('not implemented yet' branch returning src) are outside Commit's precondition. gRPC stub assumed not to write executor memory. "
          "Strings uninterpreted with distinct literals.",
          "DESIGN.md §6 C16"),
+ "C05": ("Proof (unbounded: inductive loop invariants, quantified over all attribute and constraint lists) of the matching functions: "
+         "Attributes.Get (first attribute of that name), Attributes.Satisfy (true iff EVERY constraint is satisfied), Constraints.MergeParent (override: "
+         "wherever the merged list mentions an attribute the child constrains it carries the child's constraint; parent entries keep position and are "
+         "untouched where the child is silent; no attribute constrained twice; inputs not written), port.RangesFromExpression (item i of the expression "
+         "is exactly \"a\" or \"a-b\"), utils.StringSliceContains. Two genuine defects were found by these obligations and repaired with fix: commits "
+         "(Satisfy's break-in-switch, range end parsed from the first field) - see known_findings.txt.",
+         "Not yet under contract in this check: Resources.Satisfy, makeTaskForMesosResources port arithmetic and the OFFERS handler (see DESIGN.md for "
+         "their status). strings.Split/Contains/TrimSpace, strconv.ParseUint are assumed deterministic functions (uninterpreted); mesos-go getters are "
+         "executed symbolically; precondition: operators are Equals and no attribute is constrained twice inside one list; slice parameters modelled at "
+         "offset 0; append modelled as copy.",
+         "DESIGN.md §6 C05"),
 }
 
 NOT_APPLICABLE = {
